@@ -25,6 +25,7 @@ pub enum Ty {
     Sink,                    // W: Write
     Bound(Box<Ty>),
     Cursor,                  // ReaderCursor<R>: external, reached through `step`
+    ExtW,                    // W: Write kept abstract (`W=@extw`): reached through `wwrite` / `wflush`
     Any,                     // the payload type of a bare `None`: unifies with everything
 }
 
@@ -37,6 +38,9 @@ pub struct World {
     pub fns: BTreeMap<String, FnSig>,
     /// structs holding an external cursor: `structure S (γ : Type)`
     pub ext_structs: std::collections::BTreeSet<String>,
+    /// wrappers around `&mut T` whose `AsRef<[u8]>` exposes a field of `T` and whose `Drop` calls a method of `T`
+    /// (checked against the source by a `dropimpl` target): wrapper -> (T, exposed field, method run on drop)
+    pub drop_views: BTreeMap<String, (String, String, String)>,
 }
 
 #[derive(Clone, Debug)]
@@ -50,6 +54,19 @@ pub struct FnSig {
     pub uses_step: bool,
     /// declared to return `Result<ret, _>`
     pub ret_is_res: bool,
+    /// takes the external `decompress` as an argument
+    pub uses_decompress: bool,
+    /// takes the abstract writer's `wwrite` / `wflush` as arguments
+    pub uses_w: bool,
+    /// `drop_ret` function: the name of the wrapper type it returns (looked up in `drop_views` by its callers)
+    pub view: Option<String>,
+    /// takes the external `compress` as an argument
+    pub uses_compress: bool,
+}
+
+/// the type a target line instantiates a type parameter with: `B=Block`, or `W=@extw` for an abstract writer
+pub fn inst_ty(s: &str) -> Ty {
+    if s == "@extw" { Ty::ExtW } else { Ty::Named(s.to_string()) }
 }
 
 pub fn lean_ident(s: &str) -> String {
@@ -84,7 +101,7 @@ impl World {
             Ty::Unit => "Unit".into(),
             Ty::Named(n) if self.ext_structs.contains(n) => format!("({} γ)", n),
             Ty::Named(n) => n.clone(),
-            Ty::Cursor => "γ".into(),
+            Ty::Cursor | Ty::ExtW => "γ".into(),
             Ty::Any => "_".into(),
             Ty::Tuple(ts) => {
                 let v: R<Vec<String>> = ts.iter().map(|t| self.lean_ty(t)).collect();
@@ -163,7 +180,7 @@ impl World {
                     for gp in &s.generics.params {
                         if let GenericParam::Type(tp) = gp {
                             if let Some(inst) = opts.get(&tp.ident.to_string()) {
-                                g.insert(tp.ident.to_string(), Ty::Named(inst.clone()));
+                                g.insert(tp.ident.to_string(), inst_ty(inst));
                             }
                         }
                     }
@@ -171,7 +188,7 @@ impl World {
                         let n = fl.ident.as_ref().ok_or("tuple struct")?.to_string();
                         fields.push((n, self.ty_of(&fl.ty, &g)?));
                     }
-                    let is_ext = fields.iter().any(|(_, t)| *t == Ty::Cursor);
+                    let is_ext = fields.iter().any(|(_, t)| *t == Ty::Cursor || *t == Ty::ExtW);
                     if is_ext {
                         self.ext_structs.insert(name.to_string());
                     }
@@ -188,6 +205,56 @@ impl World {
             }
         }
         Err(format!("struct {} not found", name))
+    }
+
+    /// `dropimpl <file> <Wrapper> <Target>`: checks, on the current source, that `Wrapper` is a struct with the single
+    /// field `x: &mut Target`, that `impl AsRef<[u8]> for Wrapper` returns `&self.x.<field>` and that
+    /// `impl Drop for Wrapper` is exactly `self.x.<method>();` — the facts the translation of its users relies on.
+    pub fn tr_dropimpl(&mut self, f: &File, name: &str, target: &str) -> R<String> {
+        let mut field_name: Option<String> = None;
+        for it in &f.items {
+            if let Item::Struct(s) = it {
+                if s.ident == name {
+                    let fs: Vec<_> = s.fields.iter().collect();
+                    if fs.len() != 1 { return Err("wrapper with more than one field".into()); }
+                    let ok = matches!(&fs[0].ty, Type::Reference(r) if r.mutability.is_some() && r.elem.to_token_stream().to_string() == target);
+                    if !ok { return Err(format!("wrapper field is not `&mut {}`", target)); }
+                    field_name = fs[0].ident.as_ref().map(|i| i.to_string());
+                }
+            }
+        }
+        let x = field_name.ok_or_else(|| format!("struct {} not found", name))?;
+        let (mut exposed, mut on_drop): (Option<String>, Option<String>) = (None, None);
+        for it in &f.items {
+            if let Item::Impl(im) = it {
+                let self_name = match &*im.self_ty { Type::Path(p) => p.path.segments.last().map(|s| s.ident.to_string()).unwrap_or_default(), _ => String::new() };
+                if self_name != name { continue; }
+                let tr = im.trait_.as_ref().map(|(_, p, _)| p.to_token_stream().to_string().replace(' ', "")).unwrap_or_default();
+                for ii in &im.items {
+                    if let ImplItem::Fn(m) = ii {
+                        let body = m.block.to_token_stream().to_string().replace(' ', "");
+                        if tr == "AsRef<[u8]>" && m.sig.ident == "as_ref" {
+                            let pre = format!("{{&self.{}.", x);
+                            match body.strip_prefix(&pre).and_then(|r| r.strip_suffix("}")) {
+                                Some(fld) if fld.chars().all(|c| c.is_alphanumeric() || c == '_') => exposed = Some(fld.to_string()),
+                                _ => return Err(format!("AsRef<[u8]> for {} is not `&self.{}.<field>`", name, x)),
+                            }
+                        }
+                        if tr == "Drop" && m.sig.ident == "drop" {
+                            let pre = format!("{{self.{}.", x);
+                            match body.strip_prefix(&pre).and_then(|r| r.strip_suffix("();}")) {
+                                Some(meth) if meth.chars().all(|c| c.is_alphanumeric() || c == '_') => on_drop = Some(meth.to_string()),
+                                _ => return Err(format!("Drop for {} is not `self.{}.<method>();`", name, x)),
+                            }
+                        }
+                    }
+                }
+            }
+        }
+        let exposed = exposed.ok_or_else(|| format!("no `impl AsRef<[u8]> for {}`", name))?;
+        let on_drop = on_drop.ok_or_else(|| format!("no `impl Drop for {}`", name))?;
+        self.drop_views.insert(name.to_string(), (target.to_string(), exposed.clone(), on_drop.clone()));
+        Ok(format!("-- checked on the source: `{}` wraps `&mut {}`, `as_ref()` is its `{}`, dropping it calls `{}()`\n", name, target, exposed, on_drop))
     }
 
     pub fn tr_enum(&mut self, f: &File, name: &str) -> R<String> {
@@ -294,6 +361,15 @@ pub struct Ctx<'w> {
     loop_fin: Vec<Option<String>>,
     /// the body applied the external cursor's `step` (directly or through a callee)
     used_step: bool,
+    /// rust names of the parameters / self that are rebound `let mut` (by-value `mut` or `&mut`)
+    local_muts: Vec<String>,
+    /// the body calls the external `decompress`
+    used_decompress: bool,
+    pub used_wwrite: bool,
+    pub used_wflush: bool,
+    pub used_compress: bool,
+    /// wrappers still alive at the end of the function: (place text, Lean callee, place) dropped before the final return
+    pub pending_drops: Vec<(String, String)>,
 }
 
 struct E {
